@@ -505,3 +505,86 @@ func topoOrder(fn *ssa.Function) []*ssa.BasicBlock {
 	}
 	return order
 }
+
+// ---------- allocation types (which struct instantiations a call may allocate) ----------
+
+func substKey(s TSubst) string {
+	var parts []string
+	for k, v := range s {
+		parts = append(parts, k.Obj().Name()+fmt.Sprintf("@%p", k)+"="+typeStr(v))
+	}
+	sort.Strings(parts)
+	return strings.Join(parts, ",")
+}
+
+// allocTypes returns the set of (resolved) struct type strings that fn may allocate, transitively through static
+// calls inside /repo, with fn's type parameters interpreted through subst. ok=false: unknown (dynamic/interface call
+// into repo code or depth exceeded) — the caller must then assume anything may be allocated.
+func (e *Engine) allocTypes(fn *ssa.Function, subst TSubst, depth int, visiting map[string]bool, out map[string]bool) bool {
+	if fn.Origin() != nil {
+		fn = fn.Origin()
+	}
+	key := fullKey(fn) + "|" + substKey(subst)
+	if visiting[key] {
+		return true
+	}
+	if depth > 12 {
+		return false
+	}
+	visiting[key] = true
+	ok := true
+	for _, b := range fn.Blocks {
+		for _, ins := range b.Instrs {
+			switch ins := ins.(type) {
+			case *ssa.Alloc:
+				t := subst.apply(ins.Type().Underlying().(*types.Pointer).Elem())
+				if n, isN := types.Unalias(t).(*types.Named); isN {
+					e.noteAllocType(n, out, 0)
+				}
+			case ssa.CallInstruction:
+				c := ins.Common()
+				if c.IsInvoke() {
+					continue // interface calls reach external code or Values(); they allocate slices only
+				}
+				callee := staticCalleeOf(c)
+				if callee == nil || !inRepo(callee) {
+					continue
+				}
+				g := callee
+				cs := TSubst{}
+				if callee.Origin() != nil {
+					g = callee.Origin()
+					tps := g.TypeParams()
+					targs := callee.TypeArgs()
+					for i := 0; i < tps.Len() && i < len(targs); i++ {
+						cs[tps.At(i)] = subst.apply(targs[i])
+					}
+				}
+				for i, p := range g.Params {
+					if i < len(c.Args) {
+						unify(p.Type(), subst.apply(c.Args[i].Type()), cs)
+					}
+				}
+				if !e.allocTypes(g, cs, depth+1, visiting, out) {
+					ok = false
+				}
+			}
+		}
+	}
+	return ok
+}
+
+func (e *Engine) noteAllocType(n *types.Named, out map[string]bool, depth int) {
+	out[typeStr(n)] = true
+	st, ok := n.Underlying().(*types.Struct)
+	if !ok || depth > 3 {
+		return
+	}
+	for i := 0; i < st.NumFields(); i++ {
+		if isEmbeddedStructField(st.Field(i).Type()) {
+			if sub, ok := types.Unalias(st.Field(i).Type()).(*types.Named); ok {
+				e.noteAllocType(sub, out, depth+1)
+			}
+		}
+	}
+}
